@@ -244,7 +244,7 @@ func cmdRun(args []string) {
 	K := fs.Int("K", 0, "preemption bound")
 	fine := fs.Bool("fine", false, "fine-grained interleaving")
 	params := fs.String("params", "", "k=v,k=v")
-	timeout := fs.Int("timeout", 600, "seconds")
+	timeout := fs.Int("timeout", 120, "seconds")
 	verbose := fs.Bool("v", false, "print full result json")
 	par := fs.Int("j", 8, "parallel harnesses")
 	workers := fs.Int("w", 1, "workers per harness")
